@@ -19,6 +19,117 @@ thread_local! {
   static GO: RefCell<Option<Arc<AtomicBool>>> = RefCell::new(None);
 }
 
+// ---------------------------------------------------------------------------------------------
+// Allocator seam: the simulator's binary installs `YieldAlloc` as the global allocator. While a
+// simulated thread executes library code, every `period`-th allocation is a yield point, so the
+// library can be preempted between a read of shared state and its use even where no lock is
+// involved (anything that builds a String or a Vec in between). Off inside the scheduler itself.
+
+thread_local! {
+  /// (countdown to the next yielding allocation, period; period 0 = off)
+  static ALLOC_CTL: Cell<(u32, u32)> = const { Cell::new((0, 0)) };
+  /// > 0 while this thread is inside scheduler / harness code
+  static IN_SCHED: Cell<u32> = const { Cell::new(0) };
+}
+
+pub struct YieldAlloc;
+
+unsafe impl std::alloc::GlobalAlloc for YieldAlloc {
+  unsafe fn alloc(&self, layout: std::alloc::Layout) -> *mut u8 {
+    alloc_tick();
+    std::alloc::System.alloc(layout)
+  }
+
+  unsafe fn dealloc(&self, ptr: *mut u8, layout: std::alloc::Layout) {
+    std::alloc::System.dealloc(ptr, layout)
+  }
+
+  unsafe fn alloc_zeroed(&self, layout: std::alloc::Layout) -> *mut u8 {
+    alloc_tick();
+    std::alloc::System.alloc_zeroed(layout)
+  }
+
+  unsafe fn realloc(&self, ptr: *mut u8, layout: std::alloc::Layout, new_size: usize) -> *mut u8 {
+    std::alloc::System.realloc(ptr, layout, new_size)
+  }
+}
+
+#[inline]
+fn alloc_tick() {
+  let due = ALLOC_CTL
+    .try_with(|c| {
+      let (left, period) = c.get();
+      if period == 0 {
+        return false;
+      }
+      if left > 1 {
+        c.set((left - 1, period));
+        false
+      } else {
+        c.set((period, period));
+        true
+      }
+    })
+    .unwrap_or(false);
+  if due && IN_SCHED.try_with(|d| d.get()).unwrap_or(1) == 0 {
+    let me = current_tid();
+    if me != usize::MAX {
+      let _g = SchedGuard::enter();
+      // never panics: allocation must not unwind
+      let _ = sim().yield_point(me, Ev::Alloc, 255);
+    }
+  }
+}
+
+/// Marks "inside the scheduler" for the current thread (allocations made here never yield).
+pub struct SchedGuard;
+
+impl SchedGuard {
+  pub fn enter() -> Self {
+    let _ = IN_SCHED.try_with(|d| d.set(d.get() + 1));
+    SchedGuard
+  }
+}
+
+impl Drop for SchedGuard {
+  fn drop(&mut self) {
+    let _ = IN_SCHED.try_with(|d| d.set(d.get().saturating_sub(1)));
+  }
+}
+
+thread_local! {
+  /// what `lib_scope` turns on: (period, phase) chosen by the executor for the current operation
+  static ALLOC_PLAN: Cell<(u32, u32)> = const { Cell::new((0, 0)) };
+}
+
+pub fn set_alloc_plan(period: u32, phase: u32) {
+  let _ = ALLOC_PLAN.try_with(|c| c.set((period, phase)));
+}
+
+/// Allocation yield points are on exactly while this guard lives (around one library call).
+pub struct LibScope;
+
+pub fn lib_scope() -> LibScope {
+  let (period, phase) = ALLOC_PLAN.try_with(|c| c.get()).unwrap_or((0, 0));
+  alloc_yields_on(period, phase);
+  LibScope
+}
+
+impl Drop for LibScope {
+  fn drop(&mut self) {
+    alloc_yields_off();
+  }
+}
+
+/// Enable allocation yield points for the library call the current thread is about to make.
+pub fn alloc_yields_on(period: u32, phase: u32) {
+  let _ = ALLOC_CTL.try_with(|c| c.set((if period == 0 { 0 } else { 1 + phase % period }, period)));
+}
+
+pub fn alloc_yields_off() {
+  let _ = ALLOC_CTL.try_with(|c| c.set((0, 0)));
+}
+
 pub fn current_tid() -> usize {
   TID.with(|t| t.get())
 }
@@ -38,9 +149,10 @@ pub enum Ev {
   Blocked = 6,
   ThreadEnd = 7,
   TryLock = 8,
+  Alloc = 9,
 }
 
-pub const EV_NAMES: [&str; 9] = ["op", "lock?", "locked", "locked!poisoned", "unlock", "unlock!panicking", "blocked", "end", "trylock?"];
+pub const EV_NAMES: [&str; 10] = ["op", "lock?", "locked", "locked!poisoned", "unlock", "unlock!panicking", "blocked", "end", "trylock?", "alloc"];
 
 #[derive(Clone, Debug)]
 pub enum Policy {
@@ -101,6 +213,7 @@ pub struct RunStats {
   pub max_held_locks: u64,
   pub locks_seen: u64,
   pub try_locks: u64,
+  pub alloc_yields: u64,
 }
 
 pub struct St {
@@ -168,6 +281,7 @@ impl tyme4rs::tyme::verif::Hooks for SimHooks {
   fn before_lock(&self, addr: usize) {
     let me = current_tid();
     if me != usize::MAX {
+      let _g = SchedGuard::enter();
       sim().before_lock(me, addr, false);
     }
   }
@@ -175,6 +289,7 @@ impl tyme4rs::tyme::verif::Hooks for SimHooks {
   fn before_try_lock(&self, addr: usize) {
     let me = current_tid();
     if me != usize::MAX {
+      let _g = SchedGuard::enter();
       sim().before_lock(me, addr, true);
     }
   }
@@ -182,6 +297,7 @@ impl tyme4rs::tyme::verif::Hooks for SimHooks {
   fn acquired(&self, addr: usize, poisoned: bool) {
     let me = current_tid();
     if me != usize::MAX {
+      let _g = SchedGuard::enter();
       sim().acquired(me, addr, poisoned);
     }
   }
@@ -189,6 +305,7 @@ impl tyme4rs::tyme::verif::Hooks for SimHooks {
   fn after_unlock(&self, addr: usize, panicking: bool) {
     let me = current_tid();
     if me != usize::MAX {
+      let _g = SchedGuard::enter();
       sim().after_unlock(me, addr, panicking);
     }
   }
@@ -411,7 +528,11 @@ impl Sim {
       return true;
     }
     st.sample_state();
-    st.threads[me].op_steps += 1;
+    if ev != Ev::Alloc {
+      st.threads[me].op_steps += 1;
+    } else {
+      st.stats.alloc_yields += 1;
+    }
     if st.threads[me].op_steps > st.stats.max_op_steps {
       st.stats.max_op_steps = st.threads[me].op_steps;
     }
@@ -436,6 +557,7 @@ impl Sim {
 
   /// Called by the thread body before each operation. Returns false when the run is aborted.
   pub fn op_start(&self, me: usize, op: u32) -> bool {
+    let _g = SchedGuard::enter();
     {
       let mut g = self.lock();
       if let Some(st) = g.as_mut() {
@@ -567,6 +689,7 @@ impl Sim {
   }
 
   fn thread_end(&self, me: usize) {
+    let _g = SchedGuard::enter();
     let mut g = self.lock();
     let st = match g.as_mut() {
       Some(s) => s,
